@@ -6,6 +6,7 @@ package vexp
 
 import (
 	"fmt"
+	"regexp"
 	"sort"
 	"strings"
 	"time"
@@ -344,7 +345,7 @@ func (e *explorer) record(x *execution, prefix []int) {
 		ch := x.choices()
 		for k := 0; k < 2; k++ {
 			y := RunOnce(e.sc, ch, x.cps, false)
-			if y.broken != "" || y.err == nil || y.err.Error() != x.err.Error() {
+			if y.broken != "" || y.err == nil || normMsg(y.err.Error()) != normMsg(x.err.Error()) {
 				st.Broken = fmt.Sprintf("violation not reproducible on replay %d of %v: first %q then %v %s", k+1, ch, x.err, y.err, y.broken)
 				e.stop = true
 				return
@@ -363,6 +364,11 @@ func (e *explorer) record(x *execution, prefix []int) {
 		}
 	}
 }
+
+var digitsRE = regexp.MustCompile(`[0-9]+`)
+
+// normMsg makes messages comparable across executions (temp names, addresses).
+func normMsg(m string) string { return digitsRE.ReplaceAllString(m, "N") }
 
 // Merge adds b into a.
 func Merge(a, b *Stats) {
